@@ -93,6 +93,41 @@ def worker(unit, emit):
                     continue
                 nums.append(pfx + (v[2:] if v.upper().startswith(other) else v))
         nums += [pfx, pfx + '0', pfx + pfx, pfx + '980780684', pfx + '094259216']
+        # numbers that BEGIN with this member state's code but belong to another one (a French TVA number whose alphabetic
+        # key spells a country code): found by searching the tail of the other states' documented numbers
+        crossing = []
+        if pfx in MEMBERS and pfx.isalpha():
+            for other in MEMBERS:
+                m2 = vat_module(other)
+                if m2 is None or other == pfx:
+                    continue
+                n2 = m2.__name__[len('stdnum.'):]
+                for c in lib.corpus(n2, m2)[:1]:
+                    try:
+                        v = m2.compact(c)
+                    except Exception:
+                        continue
+                    if len(v) < 6:
+                        continue
+                    for body in (v[2:], '000' + v[5:]):
+                        for tail in range(0, 40):
+                            cand = pfx + body[:-2] + '%02d' % tail if len(body) > 2 else pfx + body
+                            try:
+                                if m2.is_valid(cand) is True:
+                                    crossing.append(cand)
+                                    break
+                            except Exception:
+                                break
+        for x in dict.fromkeys(crossing):
+            g = lib.call(euvat.guess_country, x)
+            acc = []
+            for cc in sorted(set(m.lower() for m in MEMBERS) - {'el'}):
+                m3 = vat_module({'gr': 'GR'}.get(cc, cc.upper()))
+                if lib.call(m3.is_valid, x)['b'] is True:
+                    acc.append(cc)
+            got = sorted(json.loads(g['j'])['list']) if g['k'] == 'ret' and g['t'] == 'list' else ['!' + g['cls']]
+            emit.trace([{'kind': 'guess', 'guess': got, 'accepting': acc}], {'m': 'eu.vat', 'w': x, 'how': 'guess_country (number of another state under this code)', 'site': g['site']})
+            emit.count('guess')
         for x0 in dict.fromkeys(nums):
             for x in variants(x0, rnd):
                 proj = x.upper().strip()
@@ -163,8 +198,14 @@ def worker(unit, emit):
         w = lib.module(wname)
         for n in parts:
             m = lib.module(n)
-            for x0 in lib.pick(lib.corpus(n, m), p['bases'] * 2, rnd) + synth_valid(m, rnd, 4):
-                for x in variants(x0, rnd):
+            regen = []
+            for x0 in lib.pick(lib.corpus(n, m), 3, rnd):
+                try:
+                    regen += [x for x, _d in ac.regenerated(n, m, m.validate(x0), positions=range(0, 4))]
+                except Exception:
+                    pass
+            for x0 in lib.pick(lib.corpus(n, m), p['bases'] * 2, rnd) + synth_valid(m, rnd, 4) + list(dict.fromkeys(regen))[:60]:
+                for x in (variants(x0, rnd) if x0 not in regen else [x0]):
                     inner = lib.call(m.validate, x)
                     if kind == 'superset10' and not (inner['k'] == 'ret' and len(inner['v']) == 10):
                         continue
@@ -281,6 +322,40 @@ def main():
         for sl_ in (ls if not quick else ls[::2]):
             fjobs.append({'kind': 'threads', 'n': 2, 'calls': [call], 'schedule': None, 'lines': sl_})
         fjobs.append({'kind': 'gate', 'calls': [call], 'gate': 'stdnum.%s.iban' % x[:2].lower()})
+    # cross-dispatcher histories in fresh interpreters: a VAT number of country cc through eu.vat / vatin FIRST (which loads the
+    # country package for its `vat` module), then an IBAN of the same country that only the national validator rejects --
+    # and the other way round.  A shared lookup that remembers "this package has no such module" from the first question
+    # would answer the second one wrongly.
+    from stdnum import vatin as _vatin
+    for cc in ('be', 'es', 'no', 'me'):
+        nat, vm = _gcm(cc, 'iban'), _gcm(cc, 'vat')
+        if nat is None or vm is None:
+            continue
+        vnum = None
+        for c in lib.corpus(vm.__name__[len('stdnum.'):], vm):
+            cand = cc.upper() + vm.compact(c) if not vm.compact(c).upper().startswith(cc.upper()) else vm.compact(c)
+            if _vatin.is_valid(cand) is True:
+                vnum = cand
+                break
+        bad = None
+        for c in lib.corpus(nat.__name__[len('stdnum.'):], nat):
+            v = _iban.compact(c)
+            for i in range(len(v) - 1, 4, -1):
+                if v[i].isdigit():
+                    w = v[:i] + str((int(v[i]) + 1) % 10) + v[i + 1:]
+                    w = w[:2] + _iban.calc_check_digits(w[:2] + '00' + w[4:]) + w[4:]
+                    if _iban.is_valid(w, check_country=False) is True and nat.is_valid(w) is not True:
+                        bad = w
+                        break
+            if bad:
+                break
+        if vnum and bad:
+            vcall = {'mod': 'vatin', 'fn': 'validate', 'args': [vnum]}
+            icall = {'mod': 'iban', 'fn': 'validate', 'args': [bad]}
+            fjobs.append({'kind': 'history', 'calls': [vcall, icall]})
+            fjobs.append({'kind': 'history', 'calls': [icall, vcall, icall]})
+            if cc in ('be', 'es'):
+                fjobs.append({'kind': 'history', 'calls': [{'mod': 'eu.vat', 'fn': 'validate', 'args': [vnum]}, icall]})
     with ThreadPoolExecutor(max_workers=16) as ex:
         fouts = list(ex.map(c13.run_runner, fjobs))
 
@@ -292,6 +367,8 @@ def main():
     fev, fidx = [], []
     for ji, (job, o) in enumerate(zip(fjobs, fouts), 1):
         for r in o['results']:
+            if r['mod'] != 'iban':
+                continue
             x = r['args'][0]
             ge = lib.call(_iban.validate, x, check_country=False)
             nat = _gcm(x[:2], 'iban')
